@@ -406,7 +406,9 @@ class Interp:
             if name == "__class__":
                 return ClassVal(obj.cls)
             if name == "__dict__":
-                raise Unsupported("__dict__ of symbolic object")
+                view = SDict()
+                view.d = obj.fields          # a live view: writes through it are attribute writes
+                return view
             f = self.find_class_attr(obj.cls, name)
             if f is not _NOTFOUND:
                 return self.bind(f, obj, obj.cls)
@@ -583,6 +585,10 @@ class Interp:
         self.ctx.site = (fr.fd.qualname, getattr(node, "lineno", 0))
         if self.steps > self.max_steps:
             raise Unsupported("step budget exceeded")
+        if self.steps % 256 == 0 and self.ctx.deadline is not None:
+            import time
+            if time.time() > self.ctx.deadline:
+                raise Unsupported("time budget exceeded inside one path (non-terminating or very long execution)")
         m = getattr(self, "s_" + type(node).__name__, None)
         if m is None:
             raise Unsupported("statement %s" % type(node).__name__)
